@@ -320,6 +320,15 @@ def rule_restore(ck, rid="C11.R6"):
         ok, why = order_preserving_list(fl, n.stmt.value, n, lambda it: canon(it) in ('attribute_dict["_queue"]', "attribute_dict['_queue']"))
         ck.require(ok, rid, fd, n.stmt, ok=f"restored in dumped order ({why})", bad=f"restored heap array is not in dumped order: {why}",
                    sink="restore-order")
+        # the restored entries have the shape heappush stores - (timestamp, event) *tuples*: heapq compares entries, and a list never
+        # compares with a tuple (TypeError on the first insertion into a restored queue)
+        xv = fl.expand(n.stmt.value, n)
+        comps = [x for x in [xv] + list(ast.walk(xv)) if isinstance(x, (ast.ListComp, ast.GeneratorExp))]
+        if comps:
+            elt = comps[0].elt
+            ck.require(isinstance(elt, ast.Tuple) and len(elt.elts) == 2, rid, fd, elt, ok="entries restored as (timestamp, event) tuples",
+                       bad=f"restored heap entries are `{src(elt, 50)}`, not (timestamp, event) tuples as add_event stores them: entries of the two kinds cannot be "
+                           "compared, so the restored queue fails (or orders differently) on the next insertion", sink="restore-entry-shape")
     td = repo.fn("EventQueue._to_dict")
     fl = flow_of(td)
     hit = 0
